@@ -147,6 +147,9 @@ def name_model(mb: ModelBuilder, name: str, in_ctc: bool = True, as_root: bool =
     mb.relation(root, [a], 0 if not as_root else 1, 1)   # optional: the two constraints below are independent
     mb.relation(root, [b], 0, 1)
     twin = name.swapcase() if name.swapcase() != name else name + "X"
+    if len(name) > 2 and name[0] == name[-1] == '"' and not as_root:
+        # the same name without its quotes is another feature: an encoding that quotes names must keep the two apart
+        mb.relation(root, [mb.feature(name[1:-1])], 0, 1)
     if not as_root and twin not in ("Root", "Plain", "Other", name):
         mb.relation(root, [mb.feature(twin)], 1, 1)      # the look-alike is mandatory, the named feature optional
     ctcs = []
